@@ -7,6 +7,7 @@ package c14
 
 import (
 	"encoding/json"
+	"net/url"
 	"strconv"
 	"strings"
 	"time"
@@ -62,6 +63,9 @@ func goValue(v vals.V) any {
 		return json.Number(v.S)
 	case "bytes":
 		return []byte(v.S)
+	case "url":
+		u, _ := url.Parse(v.S)
+		return u
 	case "nilbytes":
 		return []byte(nil)
 	case "nilmapss":
@@ -129,7 +133,7 @@ func truthyOf(v vals.V) (truthy, specified bool) {
 		return v.S != "", true
 	case "Flag":
 		return v.S == "true", true
-	case "*Money", "bytes", "post":
+	case "*Money", "bytes", "post", "url":
 		return true, true
 	}
 	return v.Truthy()
